@@ -202,8 +202,8 @@ pub fn run(tier: Tier, seed: u64) -> i32 {
     let ctx = Ctx::new("C09", tier, seed, "exploration");
     let mut r = Sm::derive(seed, &[9]);
     let settings = space_settings(&mut r, tier == Tier::Thorough);
-    let n_lat = tier.pick(56, 110);
-    let n_rand = tier.pick(20_000, 400_000);
+    let n_lat = tier.pick(56, 150);
+    let n_rand = tier.pick(20_000, 1_500_000);
     par_shards(settings.len(), crate::util::n_threads(), |i| {
         let spec = &settings[i];
         with_kit!(spec, K, kit => check_spec::<K>(&ctx, &kit, seed.wrapping_add(i as u64 * 7919), n_lat, n_rand));
